@@ -19,4 +19,31 @@ def platform : List (String × ByteOrder × Nat) := [
 not asserted here. -/
 def psabiReturnColumn : List (String × String × Nat) := [("X64", "ELF", 16)]
 
+/-- registers a patch must never be handed as scratch: the platform ABIs'
+reserved registers (AAPCS64: x16/x17 intra-procedure-call, x18 platform, x29
+frame pointer, x30 link register; MIPS o32: $t8/$t9 (call sequence), kernel,
+assembler, global/stack/frame pointers, $ra, $zero and the argument / value /
+callee-saved banks) -/
+def reservedRegs : String → List String
+  | "ARM64" => ["x16", "x17", "x18", "x29", "x30"]
+  | "MIPS32" => ["t8", "t9", "k0", "k1", "at", "zero", "gp", "sp", "fp", "ra"]
+  | _ => []
+
+/-- red zone below the stack pointer a leaf function may use without adjusting
+it: 128 bytes in the System V x86-64 psABI, none elsewhere -/
+def redZone : List ((String × String) × Nat) := [
+  (("X64", "ELF"), 128), (("X64", "PE"), 0), (("IA32", "PE"), 0), (("ARM64", "ELF"), 0),
+  (("MIPS32", "ELF"), 0)
+]
+
+/-- integer argument registers, stack alignment at a call, shadow space:
+System V x86-64, Microsoft x64, IA32 cdecl/stdcall, AAPCS64, MIPS o32 -/
+def callConv : List ((String × String) × (List String × Nat × Nat)) := [
+  (("X64", "ELF"), (["RDI", "RSI", "RDX", "RCX", "R8", "R9"], 16, 0)),
+  (("X64", "PE"), (["RCX", "RDX", "R8", "R9"], 16, 32)),
+  (("IA32", "PE"), ([], 4, 0)),
+  (("ARM64", "ELF"), (["x0", "x1", "x2", "x3", "x4", "x5", "x6", "x7"], 16, 0)),
+  (("MIPS32", "ELF"), (["a0", "a1", "a2", "a3"], 8, 0))
+]
+
 end GtirbVerif.Std
